@@ -73,7 +73,12 @@ def shrink_history(case, still_fails):
                 hist = trial
                 changed = True
                 break
-    # single-step form
+    # single-step form (state reached, last message).  Not when the case is going to be
+    # kept as a regression case: the state was reached on the tree under test, and a
+    # defective tree can reach states that are not valid inputs for the correct one.
+    import os
+    if os.environ.get('VERIF_KEEP_HISTORY'):
+        return {'history': hist}
     try:
         ro = RunningOrder.from_string(hist[0])
         for msg_xml in hist[1:-1]:
